@@ -23,6 +23,12 @@ C["C17"] = ("Coq theorems: every frame with a payload that fits the read buffer 
             "serves the next child after a child disappears. Tie: tables regenerated on every run; readMessage/sendMessage on raw bytes over a unix socket pair for every (declared, carried) length "
             "pair on a grid; the public Restarter with a scripted Instance and raw children vs the model.",
             "Lock-step protocol (one frame per read) assumed, as the real child obeys; kill replaced by a recorder; unix stream socket semantics.", "DESIGN.md §4 C17")
+C["C14"] = ("Coq theorems over the dispatch model instantiated with the handler table, read-only set and error texts regenerated from handler.go/redis.go: every name in the proxy's "
+            "read-only set is read-only in Redis' own command table and no Redis write command is in it; a request whose name (ASCII case-insensitive) is not registered is answered with "
+            "the unsupported error and nothing is forwarded; PING/QUIT/SELECT/INFO/TIME/HOTKEY are local; a non-read-only request has the owning master as its only candidate under every "
+            "strategy; any candidate is the owner or one of its replicas. Tie: tables regenerated each run; the real handleRequest/handlers/chooseHost/CLUSTER NODES loading run against fake "
+            "backends and compared (reply, every address+body that reached a backend) with the extracted model, and against the same model driven by Redis' flags (specification side).",
+            "Redis' command flags are a trusted transcription; replica choice by wall-clock checked as set membership; Unicode case mapping facts of Go assumed.", "DESIGN.md §4 C14")
 checks = []
 for pid in sorted(C):
     text, note, ref = C[pid]
